@@ -210,17 +210,36 @@ Proof. apply obs_eqb_eq. reflexivity. Qed.
 Lemma occupied_obs_of now (st : store) it : occupied (obs_of stamp now st it) = found now st it.
 Proof. reflexivity. Qed.
 
+(* comparison of observations: everything, or - for a slot another writer touched - the raw bytes only *)
+Lemma obs_ok_bot stale (a b : obs) : obs_ok veqb stale a b = true -> o_bot a = o_bot b.
+Proof.
+  unfold obs_ok. destruct stale; intros H.
+  - apply (option_eqb_eq veqb veqb_eq). exact H.
+  - apply obs_eqb_eq in H. rewrite H. reflexivity.
+Qed.
+
+Lemma obs_ok_occupied stale (a b : obs) : obs_ok veqb stale a b = true -> occupied a = occupied b.
+Proof. intros H. unfold occupied. rewrite (obs_ok_bot _ _ _ H). reflexivity. Qed.
+
+Lemma obs_ok_via stale (a b x : obs) :
+  obs_ok veqb stale a x = true -> obs_ok veqb stale b x = true -> obs_ok veqb stale a b = true.
+Proof.
+  unfold obs_ok. destruct stale; intros Ha Hb.
+  - apply (option_eqb_eq veqb veqb_eq) in Ha, Hb. apply (option_eqb_eq veqb veqb_eq). congruence.
+  - apply obs_eqb_eq in Ha, Hb. apply obs_eqb_eq. congruence.
+Qed.
+
 Lemma engine_judge cond trust k now (st : store) (slots : list slot) :
   (forall sl, In sl slots -> cond (sl_it sl) = protected trust k (it_new (sl_it sl))) ->
   (forall sl, In sl slots ->
-     sl_before sl = obs_of stamp now st (sl_it sl) /\
-     sl_after sl = obs_of stamp now (fst (write_items cond now st (map sl_it slots))) (sl_it sl)) ->
+     obs_ok veqb (sl_stale sl) (sl_before sl) (obs_of stamp now st (sl_it sl)) = true /\
+     obs_ok veqb (sl_stale sl) (sl_after sl) (obs_of stamp now (fst (write_items cond now st (map sl_it slots))) (sl_it sl)) = true) ->
   judge stamp veqb trust k slots (snd (write_items cond now st (map sl_it slots))) = true.
 Proof.
   intros Hcond Hobs. unfold judge.
   set (items := map sl_it slots).
   assert (Href : forall sl, In sl slots -> refused trust k sl = cond (sl_it sl) && found now st (sl_it sl)).
-  { intros sl Hin. unfold refused. rewrite (proj1 (Hobs sl Hin)), occupied_obs_of, (Hcond sl Hin). reflexivity. }
+  { intros sl Hin. unfold refused. rewrite (obs_ok_occupied _ _ _ (proj1 (Hobs sl Hin))), occupied_obs_of, (Hcond sl Hin). reflexivity. }
   destruct (existsb (refused trust k) slots) eqn:Ex.
   - apply existsb_exists in Ex. destruct Ex as [sl0 [Hin0 R0]].
     rewrite (Href sl0 Hin0) in R0. apply andb_true_iff in R0. destruct R0 as [C0 F0].
@@ -229,9 +248,9 @@ Proof.
     destruct (refused trust k sl && Nat.eqb (key_count (sl_it sl) items) 1) eqn:G; [|reflexivity].
     cbn. apply andb_true_iff in G. destruct G as [R G]. apply Nat.eqb_eq in G.
     rewrite (Href sl Hin) in R. apply andb_true_iff in R. destruct R as [C F].
-    destruct (Hobs sl Hin) as [Hb Ha]. rewrite Hb, Ha. unfold obs_of.
-    rewrite (get_of_raw now (fst (write_items cond now st items)) st).
-    + apply obs_eqb_refl.
+    destruct (Hobs sl Hin) as [Hb Ha]. fold items in Ha. unfold obs_of in Ha.
+    rewrite (get_of_raw now (fst (write_items cond now st items)) st) in Ha.
+    + exact (obs_ok_via _ _ _ _ Ha Hb).
     + apply write_keeps_guarded.
       * unfold found in F. destruct (get now st (it_pk (sl_it sl)) (it_cc (sl_it sl))); [discriminate|discriminate F].
       * intros it' Hin' Hk.
@@ -244,8 +263,8 @@ Proof.
       assert (T : existsb (refused trust k) slots = true) by (apply existsb_exists; exists sl; auto).
       congruence. }
     fold items. rewrite Hres. cbn. apply forallb_forall. intros sl Hin.
-    destruct (Hobs sl Hin) as [_ Ha]. rewrite Ha. unfold obs_of, written.
-    fold items. rewrite (Hget (sl_it sl) (in_map sl_it _ _ Hin)). apply obs_eqb_refl.
+    destruct (Hobs sl Hin) as [_ Ha]. fold items in Ha. unfold obs_of in Ha.
+    rewrite (Hget (sl_it sl) (in_map sl_it _ _ Hin)) in Ha. exact Ha.
 Qed.
 
 (* the tables the code has now *)
@@ -277,13 +296,13 @@ Proof.
 Qed.
 
 Lemma domain_loads_ok now (st : store) (slots : list slot) :
-  (forall sl, In sl slots -> sl_before sl = obs_of stamp now st (sl_it sl)) ->
+  (forall sl, In sl slots -> obs_ok veqb (sl_stale sl) (sl_before sl) (obs_of stamp now st (sl_it sl)) = true) ->
   forallb (fun sl => it_new (sl_it sl) || occupied (sl_before sl)) slots = true ->
   loads_ok now st (map sl_it slots) = true.
 Proof.
   intros Hb D. unfold loads_ok. apply forallb_forall. intros it Hin.
   apply in_map_iff in Hin. destruct Hin as [sl [<- Hin]].
-  rewrite forallb_forall in D. specialize (D sl Hin). rewrite (Hb sl Hin), occupied_obs_of in D.
+  rewrite forallb_forall in D. specialize (D sl Hin). rewrite (obs_ok_occupied _ _ _ (Hb sl Hin)), occupied_obs_of in D.
   unfold needs_load. destruct (it_new (sl_it sl)), (it_load (sl_it sl)); cbn in *; auto.
 Qed.
 
@@ -314,9 +333,10 @@ Proof.
   apply andb_true_iff in Chk. destruct Chk as [Hobs Hres].
   assert (Er : s_res s = r) by (destruct (s_res s), r; cbn in Hres; congruence). clear Hres.
   assert (Ho : forall sl, In sl (s_slots s) ->
-            sl_before sl = obs_of stamp now st (sl_it sl) /\ sl_after sl = obs_of stamp now st1 (sl_it sl)).
+            obs_ok veqb (sl_stale sl) (sl_before sl) (obs_of stamp now st (sl_it sl)) = true /\
+            obs_ok veqb (sl_stale sl) (sl_after sl) (obs_of stamp now st1 (sl_it sl)) = true).
   { intros sl Hin. rewrite forallb_forall in Hobs. specialize (Hobs sl Hin).
-    apply andb_true_iff in Hobs. destruct Hobs as [A B]. split; apply obs_eqb_eq; assumption. }
+    apply andb_true_iff in Hobs. exact Hobs. }
   clear Hobs. unfold satisfies_step.
   destruct (in_domain trust s) eqn:D; [|destruct (s_kind s); reflexivity].
   unfold in_domain in D. apply andb_true_iff in D. destruct D as [D Dupd].
